@@ -183,6 +183,44 @@ inline Made gen_genprism(Ctx& g, LD s_)
         g.desc << "(" << p[0] << "," << p[1] << ")";
     g.desc << "}";
     Made m;
+    // F12: a side face whose end edges are twisted by less than ~sqrt(2 rel)
+    // is emitted as the plane through the lower edge, although its upper
+    // corner is farther than the tolerance from that plane
+    {
+        size_t n = lo.size();
+        for (size_t i = 0; i < n; ++i)
+        {
+            size_t j = (i + 1) % n;
+            if (lo[i] == lo[j] || hi[i] == hi[j])
+                continue;
+            LD a[3] = {LD(lo[j][0]) - lo[i][0], LD(lo[j][1]) - lo[i][1], 0};
+            LD b[3] = {LD(hi[i][0]) - lo[i][0], LD(hi[i][1]) - lo[i][1], 2 * LD(hz)};
+            LD c[3] = {LD(hi[i][0]) - hi[j][0], LD(hi[i][1]) - hi[j][1], 0};
+            LD d[3] = {LD(lo[j][0]) - hi[j][0], LD(lo[j][1]) - hi[j][1], -2 * LD(hz)};
+            auto cross = [](LD const* u, LD const* v, LD* o) {
+                o[0] = u[1] * v[2] - u[2] * v[1];
+                o[1] = u[2] * v[0] - u[0] * v[2];
+                o[2] = u[0] * v[1] - u[1] * v[0];
+                LD nn = sqrtl(o[0] * o[0] + o[1] * o[1] + o[2] * o[2]);
+                for (int k = 0; k < 3; ++k)
+                    o[k] /= nn;
+            };
+            LD nl[3], nh[3];
+            cross(a, b, nl);
+            cross(c, d, nh);
+            LD dotn = nl[0] * nh[0] + nl[1] * nh[1] + nl[2] * nh[2];
+            LD e[3] = {LD(hi[j][0]) - lo[i][0], LD(hi[j][1]) - lo[i][1], 2 * LD(hz)};
+            LD dev = fabsl(nl[0] * e[0] + nl[1] * e[1] + nl[2] * e[2]);
+            if (fabsl(1 - dotn) < 1.1L * g.tol.rel && dev > 0.5L * g.tol.abs)
+            {
+                if (!g.lim.allow_flattened_twist)
+                    throw Excluded("F12 class: flattened small twist");
+                m.known |= KF12;
+                ++g.feat.n_flat_twist;
+                break;
+            }
+        }
+    }
     m.api = api;
     m.orc = genprism_oracle(hz, lo, hi);
     m.bounded = true;
@@ -586,8 +624,7 @@ inline Made gen_obj(Ctx& g, int depth, LD s)
             a.push_back(k.api);
             o.push_back(k.orc);
             m.bounded = m.bounded && k.bounded;
-            m.f10 = m.f10 || k.f10;
-            m.f11 = m.f11 || k.f11;
+            m.known |= k.known;
             m.has_ell = m.has_ell || k.has_ell;
             m.ells.insert(m.ells.end(), k.ells.begin(), k.ells.end());
         }
@@ -604,8 +641,7 @@ inline Made gen_obj(Ctx& g, int depth, LD s)
         g.desc << (op == 1 ? " & " : " - ");
         Made b = gen_placed_kid(g, depth - 1, s);
         g.desc << ")";
-        m.f10 = a.f10 || b.f10;
-        m.f11 = a.f11 || b.f11;
+        m.known = a.known | b.known;
         m.has_ell = a.has_ell || b.has_ell;
         m.ells = a.ells;
         m.ells.insert(m.ells.end(), b.ells.begin(), b.ells.end());
@@ -640,8 +676,7 @@ inline Made gen_obj(Ctx& g, int depth, LD s)
         m.api = std::make_shared<oi::NegatedObject>(std::move(l), a.api);
         m.orc = mk(K::neg, std::vector<SPN>{a.orc});
         m.bounded = false;
-        m.f10 = a.f10;
-        m.f11 = a.f11;
+        m.known = a.known;
         m.has_ell = a.has_ell;
         m.ells = a.ells;
         ++g.feat.n_neg;
@@ -663,8 +698,7 @@ inline Made ensure_bounded(Ctx& g, Made m, LD s)
     r.bounded = true;
     r.c = cap.c;
     r.r = cap.r;
-    r.f10 = m.f10;
-    r.f11 = m.f11;
+    r.known = m.known;
     r.has_ell = m.has_ell;
     r.ells = m.ells;
     ++g.feat.n_all;
